@@ -211,7 +211,8 @@ def amount_terms(ctx, query):
     for s, g in query.groups.items():
         for rc, n in g.res.items():
             if n is None:
-                n = ctx.int('req%s_%s' % (s or '', rc), 1)
+                # valid amounts: 1 .. 2**63-1 (larger ones are answered 400)
+                n = ctx.int('req%s_%s' % (s or '', rc), 1, 2 ** 63 - 1)
             out[(s, rc)] = n
             if isinstance(n, Sym):
                 toks['$s%s_%s' % (s.strip('_') or 'u', rc)] = n
